@@ -2,7 +2,7 @@
 # run_all.sh <tier> : every check of the tier, one after another; one summary line per check
 tier=${1:-quick}
 cd "$(dirname "$0")/.."
-for c in C01 C02 C03 C04 C05 C06 C07 C08 C09 C10 C11 C12 C13 C14 C15 C16 C17 C18; do
+for c in ${CHECKS:-C01 C02 C03 C04 C05 C06 C07 C08 C09 C10 C11 C12 C13 C14 C15 C16 C17 C18}; do
   s=$(date +%s)
   out=$(/venv/bin/python check.py $c --tier $tier 2>&1)
   rc=$?
